@@ -10,8 +10,9 @@ namespace Ec
 /-- Complete characterisation of a poll of the future in register `r` (slot `k`) in a world that
     satisfies `J`: response there → `ready.ok` (the timer is not even looked at); else timer not
     expired → `pending`, nothing changes; expired without retries → the slot is released and the
-    result is `ready.err.timeout`; expired with retries → `Sendable` again, one retry less, timer
-    re-armed, `pending`. -/
+    result is `ready.err.timeout`; expired with retries → one retry less, timer re-armed, `pending`,
+    and the frame is queued again (`Sent → Sendable` compare-exchange) if it was waiting for its
+    response — in any other state the slot is left alone. -/
 theorem poll_cases {w : World} (hJ : J w.1 w.2) {r k ρ D T : Nat} {a : Bool}
     (hf : getH w.2 r = some ⟨r, k, .fut ρ D T a⟩) :
     ((w.1.slot k).st = .rxDone ∧
@@ -21,7 +22,7 @@ theorem poll_cases {w : World} (hJ : J w.1 w.2) {r k ρ D T : Nat} {a : Bool}
     ((w.1.slot k).st ≠ .rxDone ∧ (a = true ∧ D ≤ w.1.now) ∧ ρ = 0 ∧
       step w (.poll r) = ((w.1.setSlot k { w.1.slot k with st := .none }, delH w.2 r), "ready.err.timeout")) ∨
     ((w.1.slot k).st ≠ .rxDone ∧ (a = true ∧ D ≤ w.1.now) ∧ ρ ≠ 0 ∧
-      step w (.poll r) = ((w.1.setSlot k { w.1.slot k with st := .sendable },
+      step w (.poll r) = ((if (w.1.slot k).st = .sent then w.1.setSlot k { w.1.slot k with st := .sendable } else w.1,
         putH w.2 ⟨r, k, .fut (ρ - 1) (w.1.now + T) T true⟩), "pending")) := by
   have hst := hJ.fut_state (getH_some hf).1 (by simp [HK.cls])
   simp only at hst
@@ -138,39 +139,6 @@ theorem sendable_mem_putH {hs : List Hd} (hr : Regs hs) {r : Nat} {h : Hd} (e : 
     subst this
     rw [hx] at ho; simp [HK.cls] at ho
 
-theorem getH_putH_self {hs : List Hd} (hr : Regs hs) (y : Hd) : getH (putH hs y) y.reg = some y :=
-  getH_of_mem (regs_putH hr y) (mem_putH.mpr (Or.inl rfl))
-
-theorem getH_putH_other {hs : List Hd} (hr : Regs hs) (y : Hd) {r : Nat} (hne : r ≠ y.reg) :
-    getH (putH hs y) r = getH hs r := by
-  cases e : getH hs r with
-  | none =>
-    cases e' : getH (putH hs y) r with
-    | none => rfl
-    | some x =>
-      obtain ⟨hx, hxr⟩ := getH_some e'
-      rcases mem_putH.mp hx with rfl | ⟨a, _⟩
-      · exact absurd hxr.symm hne
-      · exact absurd hxr (getH_none e x a)
-  | some x =>
-    obtain ⟨hx, hxr⟩ := getH_some e
-    rw [← hxr]
-    exact getH_of_mem (regs_putH hr y) (mem_putH.mpr (Or.inr ⟨hx, by rw [hxr]; exact hne⟩))
-
-theorem getH_delH_other {hs : List Hd} (hr : Regs hs) {r r' : Nat} (hne : r ≠ r') :
-    getH (delH hs r') r = getH hs r := by
-  cases e : getH hs r with
-  | none =>
-    cases e' : getH (delH hs r') r with
-    | none => rfl
-    | some x =>
-      obtain ⟨hx, hxr⟩ := getH_some e'
-      exact absurd hxr (getH_none e x (mem_delH.mp hx).1)
-  | some x =>
-    obtain ⟨hx, hxr⟩ := getH_some e
-    rw [← hxr]
-    exact getH_of_mem (regs_delH hr r') (mem_delH.mpr ⟨hx, by rw [hxr]; exact hne⟩)
-
 /-- What one step must establish. -/
 def StepConcl (r k R : Nat) (B : List Nat) (e : Nat) (v : World) (op : Op) : Prop :=
   Q r k R B (e + stepExp r v op) (step v op).1 ∧
@@ -254,6 +222,7 @@ theorem step_poll_self {r k R e : Nat} {B : List Nat} {v : World} (hJ : J v.1 v.
     have hx' : expiredB v r = true := by rw [hxb]; simp [hx.1, hx.2]
     have e1 : stepExp r v (.poll r) = 1 := by simp [stepExp, hx']
     have hsent : (v.1.slot k).st = .sent := hok rfl hx'
+    rw [if_pos hsent] at hs
     have hsl : ((step v (.poll r)).1.1.slot k) = { v.1.slot k with st := .sendable } := by
       rw [hs]; exact slot_setSlot_eq _ _ _ hk
     refine ⟨?_, ?_, by simp [stepSends], by simp [stepPoll, hs]⟩
